@@ -111,7 +111,7 @@ def families(tier):
         ]
     return [
         ("main", dict(full, Scripts=scripts(([], 4), *[(p, 2) for p in RICH])), None),
-        ("core", dict(core, Scripts=scripts((P_MEM_A, 4))), None),
+        ("core", dict(core, Scripts=scripts((P_MEM_A, 3), (P_FILE_AB, 3))), None),
         ("deep", dict(full, D="1..3", Scripts=scripts(([], 14))), ("num=300", 15)),
     ]
 
